@@ -190,7 +190,8 @@ def _baseline_keys(prop, root):
 
 
 def run_mutant(args):
-    mu, root = args
+    mu, root = args[0], args[1]
+    variant = args[2] if len(args) > 2 else None
     from .main import run_property
 
     path = os.path.join(root or model.REPO, mu["file"])
@@ -205,8 +206,21 @@ def run_mutant(args):
         compile(new, mu["file"], "exec")
     except SyntaxError as e:
         return mu["id"], "broken-mutant: %s" % e, []
+    overlay = {mu["file"]: new}
+    if variant is not None:
+        import glob
+
+        base = root or model.REPO
+        try:
+            for pth in glob.glob(os.path.join(base, "pymemcache", "**", "*.py"), recursive=True):
+                rel = os.path.relpath(pth, base)
+                if rel.startswith("pymemcache/test/"):
+                    continue
+                overlay[rel] = GLOBAL_VARIANTS[variant](new if rel == mu["file"] else open(pth, encoding="utf8").read())
+        except Exception as e:
+            return mu["id"], "variant-broken: %r" % (e,), []
     try:
-        code, chk = run_property(mu["prop"], "quick", 0, root=root, overlay={mu["file"]: new}, write=False)
+        code, chk = run_property(mu["prop"], "quick", 0, root=root, overlay=overlay, write=False)
         keys = sorted({f.key for f in chk.findings()})
         return mu["id"], "ok", keys
     except model.AnalysisError as e:
@@ -215,14 +229,14 @@ def run_mutant(args):
         return mu["id"], "internal-error: %r" % (e,), []
 
 
-def evaluate(muts, root, jobs=1):
+def evaluate(muts, root, jobs=1, variant=None):
     props = sorted({mu["prop"] for mu in muts})
     base = {p: _baseline_keys(p, root) for p in props}
     if jobs > 1:
         with ProcessPoolExecutor(jobs) as ex:
-            results = list(ex.map(run_mutant, [(mu, root) for mu in muts]))
+            results = list(ex.map(run_mutant, [(mu, root, variant) for mu in muts]))
     else:
-        results = [run_mutant((mu, root)) for mu in muts]
+        results = [run_mutant((mu, root, variant)) for mu in muts]
     out = []
     for mu, (mid, status, keys) in zip(muts, results):
         b = base.get(mu["prop"]) or set()
@@ -372,4 +386,11 @@ def selftest(prop=None, root=None, jobs=16):
     print("selftest: %d/%d firing mutants reported (%d by the intended rule), %d/%d behaviour-preserving variants silent, %d skipped, %.1fs" % (n_c, n_fire, n_int, n_so, n_s, len([r for r in res if r["verdict"] == "skipped"]), time.time() - t0))
     if prop in (None, "all"):
         bad += global_variants(root, jobs)
+        # the same firing mutants with every local variable of the package renamed: detection must not depend on names
+        res2 = evaluate([mu for mu in muts if mu["kind"] == "fire"], root, jobs=jobs, variant="rename-locals")
+        miss2 = [r for r in res2 if not r["verdict"].startswith("caught") and r["verdict"] != "skipped"]
+        for r in miss2:
+            print("under rename-locals: %-34s %s" % (r["id"], r["verdict"]))
+        print("mutants under rename-locals: %d/%d still reported" % (len(res2) - len(miss2), len(res2)))
+        bad += len(miss2)
     return 0 if bad == 0 else 1
